@@ -33,6 +33,8 @@ pub struct DeletionQuery {
     pub updated_nodes: Vec<Node>,
     //modification dates of the updated_nodes before the deletion, to update the daily log
     pub updated_nodes_old_mdate: Vec<i64>,
+    //entity names of the updated_nodes, to check the rights
+    pub updated_nodes_name: Vec<String>,
     pub edges: Vec<EdgeDelete>,
     pub edge_log: Vec<EdgeDeletionEntry>,
 }
@@ -49,6 +51,7 @@ impl DeletionQuery {
             node_log: Vec::new(),
             updated_nodes: Vec::new(),
             updated_nodes_old_mdate: Vec::new(),
+            updated_nodes_name: Vec::new(),
             edges: Vec::new(),
             edge_log: Vec::new(),
         };
@@ -71,6 +74,7 @@ impl DeletionQuery {
                         date,
                     })
                 } else {
+                    let mut edge_found = false;
                     for edge_deletion in &del.references {
                         let dest = parameters
                             .params
@@ -83,6 +87,7 @@ impl DeletionQuery {
 
                         let edge = Edge::get(&src, &edge_deletion.label, &dest, conn)?;
                         if let Some(edge) = edge {
+                            edge_found = true;
                             deletion_query.edges.push(EdgeDelete {
                                 edge: *edge,
                                 src_name: del.name.clone(),
@@ -91,10 +96,14 @@ impl DeletionQuery {
                             });
                         }
                     }
-                    let mut node = *node;
-                    deletion_query.updated_nodes_old_mdate.push(node.mdate);
-                    node.mdate = date;
-                    deletion_query.updated_nodes.push(node);
+                    //the source node is only modified when an edge is really deleted
+                    if edge_found {
+                        let mut node = *node;
+                        deletion_query.updated_nodes_old_mdate.push(node.mdate);
+                        deletion_query.updated_nodes_name.push(del.name.clone());
+                        node.mdate = date;
+                        deletion_query.updated_nodes.push(node);
+                    }
                 }
             }
         }
